@@ -533,3 +533,9 @@ PROPS["C11"]["mc"] = [{"module": "MC_C11", "cfg": "MC_C11.cfg", "workers": 4, "t
                                "the statement's iff on HandleTimer's result; Down final under every later update / forget-timer"}] + PROPS["C11"]["mc"]
 for _t in ("quick", "thorough"):
     PROPS["C11"]["drivers"][_t].append({"args": ["c11"], "shards": 1, "seed_fixed": 1})
+
+# C07: send_message exhaustively over the packet size (byte by byte), kinds, backlogs and codecs
+PROPS["C07"]["mc"] = [{"module": "MC_C07", "cfg": "MC_C07.cfg", "workers": 8, "timeout": 1500,
+                       "what": "exhaustive: every max_packet_size 9..64, 11 kinds, known/unknown destination, fixed/variable identities, "
+                               "0/2/4 members, 3 update-backlog patterns, 4 custom backlogs: bounded, exact sections, legal feed/fill, "
+                               "accepted by the receiver grammar; Err:Encode iff the header does not fit"}] + PROPS["C07"]["mc"]
